@@ -126,7 +126,7 @@ def rule_r(rep, src):
         for p in f.params:
             if p["pat"]["k"] == "ident":
                 env[p["pat"]["name"]] = AI.Obj("Captured")
-        it = AI.Interp()
+        it = AI.Interp(HELPERS)
         try:
             if kind in ("univariate", "bivariate", "trivariate"):
                 if len(clo["params"]) != len(dom_decls):
@@ -317,6 +317,8 @@ def optional_form(e):
         return "never"
     return None
 
+
+HELPERS = {}  # private free functions of data_type/function.rs (filled by run): an extracted helper is interpreted through its body
 
 NULLABLE = {"Inner": set(), "Cross": set(), "LeftOuter": {"R"}, "RightOuter": {"L"}, "FullOuter": {"L", "R"}}
 PRESERVED = {"Inner": set(), "Cross": {"L", "R"}, "LeftOuter": {"L"}, "RightOuter": {"R"}, "FullOuter": {"L", "R"}}
@@ -749,6 +751,8 @@ def run(rep):
         "that has_unique_constraint is right about uniqueness (C14), anything that needs data."
     )
     src = Src(facts.src_facts())
+    HELPERS.clear()
+    HELPERS.update({f.name: f.node for f in src.fns if f.file == "data_type/function.rs" and not f.self_ty and not f.test and f.body and (f.node.get("vis") or "") == ""})
     rule_r(rep, src)
     rule_z1(rep, src)
     Z2(rep, src).run()
